@@ -1567,61 +1567,73 @@ pub fn p1168() {
     re::render::render(&tris, &verts, &sh, (), mk(), &mut target, &mk::<re::render::Context>());
 }
 
-pub fn p1170() {
+pub fn p1173() {
     let a: re::math::point::Point2<re::render::Model> = mk();
     let b: re::math::point::Point2<re::render::Model> = mk();
     let _ = re::math::Lerp::lerp(&a, &b, 0.5);
 }
 
-pub fn p1171() {
+pub fn p1174() {
     let a: re::math::point::Point2<re::render::Model> = mk();
     let b: re::math::point::Point2<re::render::Model> = mk();
     let _ = a - b;
 }
 
-pub fn p1187() {
+pub fn p1193() {
     let a: re::math::point::Point2<re::render::Model> = mk();
     let b: re::math::vec::Vec2<re::render::Model> = mk();
     let _ = a + b;
 }
 
-pub fn p1197() {
+pub fn p1201() {
+    let a: re::math::point::Point2<()> = mk();
+    let b: re::math::angle::PolarVec = mk();
+    let _ = a + b.to_cart();
+}
+
+pub fn p1202() {
+    let a: re::math::point::Point2<()> = mk();
+    let b: re::math::angle::PolarVec = mk();
+    let _ = a + b.into();
+}
+
+pub fn p1207() {
     let a: re::math::point::Point2<()> = mk();
     let b: re::math::point::Point2<()> = mk();
     let _ = re::math::Lerp::lerp(&a, &b, 0.5);
 }
 
-pub fn p1198() {
+pub fn p1208() {
     let a: re::math::point::Point2<()> = mk();
     let b: re::math::point::Point2<()> = mk();
     let _ = a - b;
 }
 
-pub fn p1212() {
+pub fn p1225() {
     let a: re::math::point::Point2<()> = mk();
     let b: re::math::vec::Vec2<()> = mk();
     let _ = a + b;
 }
 
-pub fn p1224() {
+pub fn p1238() {
     let a: re::math::point::Point2<re::render::World> = mk();
     let b: re::math::point::Point2<re::render::World> = mk();
     let _ = re::math::Lerp::lerp(&a, &b, 0.5);
 }
 
-pub fn p1225() {
+pub fn p1239() {
     let a: re::math::point::Point2<re::render::World> = mk();
     let b: re::math::point::Point2<re::render::World> = mk();
     let _ = a - b;
 }
 
-pub fn p1237() {
+pub fn p1251() {
     let a: re::math::point::Point2<re::render::World> = mk();
     let b: re::math::vec::Vec2<re::render::World> = mk();
     let _ = a + b;
 }
 
-pub fn p1251() {
+pub fn p1269() {
     let a: re::math::point::Point3<re::render::Model> = mk();
     let b: re::math::point::Point3<re::render::Model> = mk();
     let c: re::math::point::Point3<re::render::Model> = mk();
@@ -1629,31 +1641,31 @@ pub fn p1251() {
     let _ = re::math::space::Affine::add(&c, &d);
 }
 
-pub fn p1256() {
+pub fn p1274() {
     let a: re::math::point::Point3<re::render::Model> = mk();
     let b: re::math::point::Point3<re::render::Model> = mk();
     let _r: re::math::vec::Vec3<re::render::Model> = a - b;
 }
 
-pub fn p1260() {
+pub fn p1278() {
     let a: re::math::point::Point3<re::render::Model> = mk();
     let b: re::math::point::Point3<re::render::Model> = mk();
     let _ = re::math::Lerp::lerp(&a, &b, 0.5);
 }
 
-pub fn p1261() {
+pub fn p1279() {
     let a: re::math::point::Point3<re::render::Model> = mk();
     let b: re::math::point::Point3<re::render::Model> = mk();
     let _ = a - b;
 }
 
-pub fn p1289() {
+pub fn p1310() {
     let a: re::math::point::Point3<re::render::Model> = mk();
     let b: re::math::vec::Vec3<re::render::Model> = mk();
     let _ = a + b;
 }
 
-pub fn p1317() {
+pub fn p1342() {
     let a: re::math::point::Point3<()> = mk();
     let b: re::math::point::Point3<()> = mk();
     let c: re::math::point::Point3<()> = mk();
@@ -1661,31 +1673,43 @@ pub fn p1317() {
     let _ = re::math::space::Affine::add(&c, &d);
 }
 
-pub fn p1321() {
+pub fn p1346() {
     let a: re::math::point::Point3<()> = mk();
     let b: re::math::point::Point3<()> = mk();
     let _r: re::math::vec::Vec3<()> = a - b;
 }
 
-pub fn p1324() {
+pub fn p1349() {
     let a: re::math::point::Point3<()> = mk();
     let b: re::math::point::Point3<()> = mk();
     let _ = re::math::Lerp::lerp(&a, &b, 0.5);
 }
 
-pub fn p1325() {
+pub fn p1350() {
     let a: re::math::point::Point3<()> = mk();
     let b: re::math::point::Point3<()> = mk();
     let _ = a - b;
 }
 
-pub fn p1342() {
+pub fn p1364() {
+    let a: re::math::point::Point3<()> = mk();
+    let b: re::math::angle::SphericalVec = mk();
+    let _ = a + b.to_cart();
+}
+
+pub fn p1365() {
+    let a: re::math::point::Point3<()> = mk();
+    let b: re::math::angle::SphericalVec = mk();
+    let _ = a + b.into();
+}
+
+pub fn p1370() {
     let a: re::math::point::Point3<()> = mk();
     let b: re::math::vec::Vec3<()> = mk();
     let _ = a + b;
 }
 
-pub fn p1382() {
+pub fn p1411() {
     let a: re::math::point::Point3<re::render::World> = mk();
     let b: re::math::point::Point3<re::render::World> = mk();
     let c: re::math::point::Point3<re::render::World> = mk();
@@ -1693,195 +1717,249 @@ pub fn p1382() {
     let _ = re::math::space::Affine::add(&c, &d);
 }
 
-pub fn p1385() {
+pub fn p1414() {
     let a: re::math::point::Point3<re::render::World> = mk();
     let b: re::math::point::Point3<re::render::World> = mk();
     let _r: re::math::vec::Vec3<re::render::World> = a - b;
 }
 
-pub fn p1387() {
+pub fn p1416() {
     let a: re::math::point::Point3<re::render::World> = mk();
     let b: re::math::point::Point3<re::render::World> = mk();
     let _ = re::math::Lerp::lerp(&a, &b, 0.5);
 }
 
-pub fn p1388() {
+pub fn p1417() {
     let a: re::math::point::Point3<re::render::World> = mk();
     let b: re::math::point::Point3<re::render::World> = mk();
     let _ = a - b;
 }
 
-pub fn p1394() {
+pub fn p1423() {
     let a: re::math::point::Point3<re::render::World> = mk();
     let b: re::math::vec::Vec3<re::render::World> = mk();
     let _ = a + b;
-}
-
-pub fn p1401() {
-    let a: re::math::vec::Vec2<re::render::Model> = mk();
-    let b: re::math::vec::Vec2<re::render::Model> = mk();
-    let _ = a + b;
-}
-
-pub fn p1402() {
-    let a: re::math::vec::Vec2<re::render::Model> = mk();
-    let b: re::math::vec::Vec2<re::render::Model> = mk();
-    let _ = a.dot(&b);
-}
-
-pub fn p1403() {
-    let a: re::math::vec::Vec2<re::render::Model> = mk();
-    let b: re::math::vec::Vec2<re::render::Model> = mk();
-    let _ = re::math::Lerp::lerp(&a, &b, 0.5);
-}
-
-pub fn p1404() {
-    let a: re::math::vec::Vec2<re::render::Model> = mk();
-    let b: re::math::vec::Vec2<re::render::Model> = mk();
-    let _ = a - b;
-}
-
-pub fn p1435() {
-    let a: re::math::vec::Vec2<()> = mk();
-    let b: re::math::vec::Vec2<()> = mk();
-    let _ = a + b;
-}
-
-pub fn p1436() {
-    let a: re::math::vec::Vec2<()> = mk();
-    let b: re::math::vec::Vec2<()> = mk();
-    let _ = a.dot(&b);
 }
 
 pub fn p1437() {
-    let a: re::math::vec::Vec2<()> = mk();
-    let b: re::math::vec::Vec2<()> = mk();
-    let _ = re::math::Lerp::lerp(&a, &b, 0.5);
+    let a: re::math::vec::Vec2<re::render::Model> = mk();
+    let b: re::math::vec::Vec2<re::render::Model> = mk();
+    let _ = a + b;
 }
 
 pub fn p1438() {
+    let a: re::math::vec::Vec2<re::render::Model> = mk();
+    let b: re::math::vec::Vec2<re::render::Model> = mk();
+    let _ = a.dot(&b);
+}
+
+pub fn p1439() {
+    let a: re::math::vec::Vec2<re::render::Model> = mk();
+    let b: re::math::vec::Vec2<re::render::Model> = mk();
+    let _ = re::math::Lerp::lerp(&a, &b, 0.5);
+}
+
+pub fn p1440() {
+    let a: re::math::vec::Vec2<re::render::Model> = mk();
+    let b: re::math::vec::Vec2<re::render::Model> = mk();
+    let _ = a - b;
+}
+
+pub fn p1461() {
+    let a: re::math::vec::Vec2<re::render::Model> = mk();
+    let _ = [a.clone(), a].into_iter().sum::<re::math::vec::Vec2<re::render::Model>>();
+}
+
+pub fn p1463() {
+    let a: re::math::vec::Vec2<()> = mk();
+    let b: re::math::angle::PolarVec = mk();
+    let _ = a + b.to_cart();
+}
+
+pub fn p1464() {
+    let a: re::math::vec::Vec2<()> = mk();
+    let b: re::math::angle::PolarVec = mk();
+    let _ = a + b.into();
+}
+
+pub fn p1478() {
+    let a: re::math::vec::Vec2<()> = mk();
+    let b: re::math::vec::Vec2<()> = mk();
+    let _ = a + b;
+}
+
+pub fn p1479() {
+    let a: re::math::vec::Vec2<()> = mk();
+    let b: re::math::vec::Vec2<()> = mk();
+    let _ = a.dot(&b);
+}
+
+pub fn p1480() {
+    let a: re::math::vec::Vec2<()> = mk();
+    let b: re::math::vec::Vec2<()> = mk();
+    let _ = re::math::Lerp::lerp(&a, &b, 0.5);
+}
+
+pub fn p1481() {
     let a: re::math::vec::Vec2<()> = mk();
     let b: re::math::vec::Vec2<()> = mk();
     let _ = a - b;
 }
 
-pub fn p1469() {
+pub fn p1498() {
+    let a: re::math::vec::Vec2<()> = mk();
+    let _ = [a.clone(), a].into_iter().sum::<re::math::vec::Vec2<()>>();
+}
+
+pub fn p1513() {
     let a: re::math::vec::Vec2<re::render::World> = mk();
     let b: re::math::vec::Vec2<re::render::World> = mk();
     let _ = a + b;
 }
 
-pub fn p1470() {
+pub fn p1514() {
     let a: re::math::vec::Vec2<re::render::World> = mk();
     let b: re::math::vec::Vec2<re::render::World> = mk();
     let _ = a.dot(&b);
 }
 
-pub fn p1471() {
+pub fn p1515() {
     let a: re::math::vec::Vec2<re::render::World> = mk();
     let b: re::math::vec::Vec2<re::render::World> = mk();
     let _ = re::math::Lerp::lerp(&a, &b, 0.5);
 }
 
-pub fn p1472() {
+pub fn p1516() {
     let a: re::math::vec::Vec2<re::render::World> = mk();
     let b: re::math::vec::Vec2<re::render::World> = mk();
     let _ = a - b;
 }
 
-pub fn p1503() {
+pub fn p1529() {
+    let a: re::math::vec::Vec2<re::render::World> = mk();
+    let _ = [a.clone(), a].into_iter().sum::<re::math::vec::Vec2<re::render::World>>();
+}
+
+pub fn p1554() {
     let a: re::math::vec::Vec3<re::render::Model> = mk();
     let b: re::math::vec::Vec3<re::render::Model> = mk();
     let _ = a + b;
 }
 
-pub fn p1504() {
+pub fn p1555() {
     let a: re::math::vec::Vec3<re::render::Model> = mk();
     let b: re::math::vec::Vec3<re::render::Model> = mk();
     let _ = a.dot(&b);
 }
 
-pub fn p1505() {
+pub fn p1556() {
     let a: re::math::vec::Vec3<re::render::Model> = mk();
     let b: re::math::vec::Vec3<re::render::Model> = mk();
     let _ = re::math::Lerp::lerp(&a, &b, 0.5);
 }
 
-pub fn p1506() {
+pub fn p1557() {
     let a: re::math::vec::Vec3<re::render::Model> = mk();
     let b: re::math::vec::Vec3<re::render::Model> = mk();
     let _ = a - b;
 }
 
-pub fn p1538() {
+pub fn p1566() {
+    let a: re::math::vec::Vec3<re::render::Model> = mk();
+    let _ = [a.clone(), a].into_iter().sum::<re::math::vec::Vec3<re::render::Model>>();
+}
+
+pub fn p1578() {
+    let a: re::math::vec::Vec3<()> = mk();
+    let b: re::math::angle::SphericalVec = mk();
+    let _ = a + b.to_cart();
+}
+
+pub fn p1579() {
+    let a: re::math::vec::Vec3<()> = mk();
+    let b: re::math::angle::SphericalVec = mk();
+    let _ = a + b.into();
+}
+
+pub fn p1596() {
     let a: re::math::vec::Vec3<()> = mk();
     let b: re::math::vec::Vec3<()> = mk();
     let _ = a + b;
 }
 
-pub fn p1539() {
+pub fn p1597() {
     let a: re::math::vec::Vec3<()> = mk();
     let b: re::math::vec::Vec3<()> = mk();
     let _ = a.dot(&b);
 }
 
-pub fn p1540() {
+pub fn p1598() {
     let a: re::math::vec::Vec3<()> = mk();
     let b: re::math::vec::Vec3<()> = mk();
     let _ = re::math::Lerp::lerp(&a, &b, 0.5);
 }
 
-pub fn p1541() {
+pub fn p1599() {
     let a: re::math::vec::Vec3<()> = mk();
     let b: re::math::vec::Vec3<()> = mk();
     let _ = a - b;
 }
 
-pub fn p1546() {
+pub fn p1604() {
+    let a: re::math::vec::Vec3<()> = mk();
+    let _ = [a.clone(), a].into_iter().sum::<re::math::vec::Vec3<()>>();
+}
+
+pub fn p1605() {
     let a: re::math::vec::Vec3<crate::UserTag> = mk();
     let b: re::math::vec::Vec3<crate::UserTag> = mk();
     let _ = a + b;
 }
 
-pub fn p1547() {
+pub fn p1606() {
     let a: re::math::vec::Vec3<crate::UserTag> = mk();
     let b: re::math::vec::Vec3<crate::UserTag> = mk();
     let _ = a.dot(&b);
 }
 
-pub fn p1548() {
+pub fn p1607() {
     let a: re::math::vec::Vec3<crate::UserTag> = mk();
     let b: re::math::vec::Vec3<crate::UserTag> = mk();
     let _ = re::math::Lerp::lerp(&a, &b, 0.5);
 }
 
-pub fn p1549() {
+pub fn p1608() {
     let a: re::math::vec::Vec3<crate::UserTag> = mk();
     let b: re::math::vec::Vec3<crate::UserTag> = mk();
     let _ = a - b;
 }
 
-pub fn p1584() {
+pub fn p1643() {
     let a: re::math::vec::Vec3<re::render::World> = mk();
     let b: re::math::vec::Vec3<re::render::World> = mk();
     let _ = a + b;
 }
 
-pub fn p1585() {
+pub fn p1644() {
     let a: re::math::vec::Vec3<re::render::World> = mk();
     let b: re::math::vec::Vec3<re::render::World> = mk();
     let _ = a.dot(&b);
 }
 
-pub fn p1586() {
+pub fn p1645() {
     let a: re::math::vec::Vec3<re::render::World> = mk();
     let b: re::math::vec::Vec3<re::render::World> = mk();
     let _ = re::math::Lerp::lerp(&a, &b, 0.5);
 }
 
-pub fn p1587() {
+pub fn p1646() {
     let a: re::math::vec::Vec3<re::render::World> = mk();
     let b: re::math::vec::Vec3<re::render::World> = mk();
     let _ = a - b;
+}
+
+pub fn p1647() {
+    let a: re::math::vec::Vec3<re::render::World> = mk();
+    let _ = [a.clone(), a].into_iter().sum::<re::math::vec::Vec3<re::render::World>>();
 }
 
